@@ -978,6 +978,39 @@ pub fn run(a: &Args, corpus: &[Value]) {
             rep.fail("unicode_law", "'\\n' must be whitespace, not numeric, not alphabetic, not English-lingual (hypotheses of C12_lex_split)".into(), json!({"kind": "pair", "p": "a.\n\n", "d": "b"}));
         }
     }
+    // the generated rule table (coq/Model/Tables_c12rules.v, tools/tables/c12rules.py) against the registry the
+    // implementation actually builds: every struct rule of the table is a rule of LintGroup::new_curated, and the
+    // table accounts for all of them (registry_key_count = number of distinct keys)
+    {
+        let table = std::fs::read_to_string("/verif/coq/Model/Tables_c12rules.v").unwrap_or_default();
+        let body = table.split("Definition struct_rules").nth(1).unwrap_or("");
+        let body = body.split("\n].").next().unwrap_or("");
+        let names: Vec<String> = body
+            .lines()
+            .filter_map(|l| l.trim_start().strip_prefix("(\""))
+            .filter_map(|l| l.split('"').next().map(|x| x.to_string()))
+            .collect();
+        let n_keys: usize = table
+            .split("Definition registry_key_count : nat := ")
+            .nth(1)
+            .and_then(|t| t.split('.').next())
+            .and_then(|t| t.trim().parse().ok())
+            .unwrap_or(0);
+        let missing: Vec<&String> = names.iter().filter(|n| !cx.keys.contains(n)).collect();
+        rep.monitor("rule_table:struct_rules_in_table", names.len() as u64);
+        rep.monitor("rule_table:registry_keys", cx.keys.len() as u64);
+        if names.is_empty() || !missing.is_empty() || n_keys != cx.keys.len() {
+            rep.monitor("rule_table:mismatch", 1);
+            rep.fail(
+                "rule_table",
+                format!(
+                    "Tables_c12rules.v does not describe the registry of LintGroup::new_curated: {} struct rows, {} distinct rule names vs {} keys; rows that are no rule: {:?}",
+                    names.len(), n_keys, cx.keys.len(), missing
+                ),
+                json!({"kind": "pair", "p": "a.\n\n", "d": "b"}),
+            );
+        }
+    }
     for c in corpus {
         replay_input(&mut rep, &mut cx, c);
     }
